@@ -328,3 +328,17 @@ mk("m25_static_roots_cache", "C04", [(FG,
         .try_for_each(|fn_id| fn_ready_tx.try_send(fn_id))
         .expect("Failed to preload function with no predecessors.");""", 0)],
    "process-global cache of the initial functions: state outside the case (exercises the history-replay fallback)")
+mk("m26_stream_never_ends", "C05", [(FG,
+   """                fns_remaining -= 1;
+
+                if fns_remaining == 0 {
+                    fn_done_tx.take();
+                    fn_ready_tx.take();
+                }
+            }
+
+            poll""",
+   """                fns_remaining -= 1;
+            }
+
+            poll""", 0)], "stream does not end after the last function was yielded (late / missing None)")
